@@ -292,53 +292,6 @@ def known_simplify_arith(prog, which):
     return False
 
 
-def _outside_own_loops(stmts, v, inside=False):
-    """does name v occur (other than as the DO variable itself) outside the DO loops it controls?"""
-    for s in stmts:
-        h = _h(s)
-        own = h == 'do' and str(s[1]) == v
-        exprs = stmt_exprs(s)[1:] if h == 'do' else ([] if h == 'print' else stmt_exprs(s))   # PRINT is no use for the dataflow sets
-        if not inside and any(v in ex_names(e) for e in exprs):
-            return True
-        subs = {'do': [s[5]] if h == 'do' else [], 'while': [s[2]] if h == 'while' else [],
-                'assoc': [s[2]] if h == 'assoc' else [], 'if': [s[2], s[3]] if h == 'if' else [],
-                'select': ([c[1] for c in s[2]] + [s[3]]) if h == 'select' else []}.get(h, [])
-        for b in subs:
-            if _outside_own_loops(b, v, inside or own):
-                return True
-    return False
-
-
-def known_uv_dovar(prog):
-    """a local scalar that is a DO variable and is not mentioned outside the loops it controls (PRINT statements do not
-    count, see uv-print-only-variable): the dataflow analysis
-    keeps loop variables local to their loops, so find_unused_dummy_args_and_vars reports it unused and
-    do_remove_unused_vars(remove_only_arrays=False) deletes its declaration"""
-    for u in prog[2:]:
-        args = {str(a) for a in u[2]}
-        for s in iter_stmts(u[4]):
-            if _h(s) == 'do' and str(s[1]) not in args and not _outside_own_loops(u[4], str(s[1])):
-                return True
-    return False
-
-
-def known_uv_print(prog):
-    """a declared name whose only occurrences in the body are in PRINT statements: PRINT arguments are not part of
-    uses_symbols, so the name counts as unused (a dummy is removed from the interface, a local loses its declaration)"""
-    for u in prog[2:]:
-        printed, other = set(), set()
-        for s in iter_stmts(u[4]):
-            tgt = printed if _h(s) == 'print' else other
-            for e in stmt_exprs(s):
-                tgt |= ex_names(e)
-        for d in u[3]:
-            for lo, hi in d[4]:
-                other |= ex_names(lo) | ex_names(hi)
-        if printed - other:
-            return True
-    return False
-
-
 def known_assoc_nested(prog):
     """an ASSOCIATE inside another ASSOCIATE whose selector is an expression mentioning a name bound by the enclosing
     one: rebuilding the inner node (any non-inplace Transformer, here RemoveDeadCodeTransformer) re-derives the selector
@@ -399,13 +352,7 @@ def classify(op, flag, prog, kind=''):
         # symbolic_op(expr, eq, value) of visit_MultiConditional calls simplify even with use_simplify=False
         table.append(('simplify-arithmetic-inherited', lambda p: known_simplify_arith(p, 'dc')))
     elif op == 'uv':
-        table = [('uv-print-only-variable', known_uv_print)]
-        if flag == 'all':
-            table.insert(0, ('uv-do-variable-removed', known_uv_dovar))
-        if kind.startswith('raise attributeerror'):
-            table.insert(0, ('uv-associate-expression-selector', known_uv_assoc))
-        else:
-            table.append(('uv-associate-expression-selector', known_uv_assoc))
+        table = [('uv-associate-expression-selector', known_uv_assoc)]
     else:
         table = []
     for name, pred in table:
@@ -899,7 +846,7 @@ class C32(Prop):
 
     def classes(self):
         return ['cp-associate-alias', 'cp-select-sequential', 'cp-literal-type-conversion', 'simplify-arithmetic-inherited',
-                'uv-do-variable-removed', 'uv-print-only-variable', 'uv-associate-expression-selector',
+                'uv-associate-expression-selector',
                 'associate-rebuild-inherited']
 
     # ------------------------------------------------------------ generation
